@@ -4,7 +4,7 @@ From RU Require Import Base Types Defs BitReader World WorldProofs Layout Layout
 (* strict: the result is the fold over the prefix before the first failing packet, and the error is that packet's *)
 Theorem C12_strict_stops_at_first_failure : forall St ps w w1 e,
   play_strict St w ps = (w1, Some e) ->
-  exists pre p post w0, ps = pre ++ p :: post /\ play_strict St w pre = (w0, None) /\ step St w0 p = (w1, Some e).
+  exists pre p post w0, ps = (pre ++ p :: post)%list /\ play_strict St w pre = (w0, None) /\ step St w0 p = (w1, Some e).
 Proof. exact strict_stops_at_first_failure. Qed.
 Print Assumptions C12_strict_stops_at_first_failure.
 
